@@ -21,6 +21,8 @@
 (*   reports within 40 NM of the reference) is re-measured by the harness's  *)
 (*   ruler and checked by the trace spec (SELFCHECK), so this generator is   *)
 (*   not trusted.                                                            *)
+(* GEN_MODE = "nl": first fixes straddling an NL transition latitude (see    *)
+(*   NLScenario below).                                                      *)
 EXTENDS Integers, Sequences, TLC, Json, IOUtils, Bitwise
 
 C == INSTANCE CPR
@@ -192,11 +194,64 @@ RandScenario(k) ==
   IN  [id |-> k, fam |-> "rand", ref |-> << rL, rM >>, refu |-> NONE,
        reports |-> Deliver(k, Merged(k, nac), 1)]
 
+(***************************************************************************)
+(* "nl" mode: first fixes across an NL transition latitude.  For every one *)
+(* of the 58 transitions, both hemispheres, headings north and south, an   *)
+(* aircraft whose two consecutive reports (even then odd, or odd then      *)
+(* even, 0.5 - 9 s apart) are encoded on opposite sides of the transition  *)
+(* (placed with NLTable's exact bound: the even CPR count NLBoundAir0[t]   *)
+(* is the first at or above the transition; one count = 32/15 lattice      *)
+(* points), at longitude 15, -91 or 170 deg: the two reports were encoded  *)
+(* with different numbers of longitude zones, so a global decoding of the  *)
+(* pair must not attach a position.  (i) the pair is the very first thing  *)
+(* heard of the aircraft; (ii) it follows a normal track after a silence   *)
+(* of more than 180 s (no usable previous position, no 50 km gate); each   *)
+(* also with the pair delivered in the opposite order; three more reports  *)
+(* follow.  Index k in 1..NLCount enumerates the combinations; NLAll =     *)
+(* FALSE keeps a seeded third of the transitions and one longitude each.   *)
+(***************************************************************************)
+CONSTANT NLAll
+NLCount == 58 * 96
+LonSet == << 699051, -4240682, 7922574 >>            \* 15, -91, 170 degrees
+NLSpeed == << 250, 450, 670 >>
+NLKeep(k) ==
+  LET k0 == k - 1
+      t == (k0 \div 96) + 1
+  IN  NLAll \/ (t % 3 = Seed % 3 /\ (k0 \div 32) % 3 = (t + ((k0 \div 8) % 4)) % 3)
+NLScenario(k) ==
+  LET k0 == k - 1
+      sw == k0 % 2                      \* 1: the pair is delivered in the opposite order
+      var == (k0 \div 2) % 2            \* 0: first reports of the aircraft; 1: after a track and a long silence
+      p1 == (k0 \div 4) % 2             \* parity of the first report of the pair
+      dir == IF (k0 \div 8) % 2 = 0 THEN 1 ELSE 0 - 1          \* northbound / southbound
+      hemi == IF (k0 \div 16) % 2 = 0 THEN 1 ELSE 0 - 1
+      M == LonSet[((k0 \div 32) % 3) + 1]
+      t == (k0 \div 96) + 1
+      c == hemi * ((NLB(t) * 32) \div 15)                       \* lattice point at the transition
+      ac == 1 + (t % 4)
+      vL == (NLSpeed[(R(k, 1) % 3) + 1] * 2156) \div 10000
+      dt == 500 + (R24(k, 2) % 8501)
+      a == MaxV(8, Disp(vL, dt) \div 2)
+      L1 == c - dir * a
+      L2 == c + dir * a
+      t0 == 1000 + (R(k, 3) % 3000)
+      tp == IF var = 0 THEN t0 ELSE t0 + 3000 + 181000 + (R24(k, 4) % 200000)
+      before == IF var = 0 THEN << >>
+                ELSE [n \in 1..4 |->
+                        Rep(ac, t0 + (n - 1) * 1000, 0, (p1 + n) % 2,
+                            ClampL(L1 + dir * Disp(vL, (t0 + (n - 1) * 1000) - tp)), M, NONE)]
+      r1 == Rep(ac, tp, 0, p1, L1, M, NONE)
+      r2 == Rep(ac, tp + dt, 0, 1 - p1, L2, M, NONE)
+      after == [n \in 1..3 |->
+                  Rep(ac, tp + dt + n * 1000, 0, (p1 + 1 + n) % 2, ClampL(L2 + dir * Disp(vL, n * 1000)), M, NONE)]
+  IN  [id |-> k, fam |-> "nlpair", ref |-> << c, M >>, refu |-> NONE,
+       reports |-> before \o (IF sw = 0 THEN << r1, r2 >> ELSE << r2, r1 >>) \o after]
+
 From == atoi(IOEnv.GEN_FROM)
 To == atoi(IOEnv.GEN_TO)
-ASSUME IF Mode = "hist"
-       THEN \A i \in 1..Len(Hists) : PrintT(ToJson(HistScenario(Hists[i])))
-       ELSE \A k \in From..To : PrintT(ToJson(RandScenario(k)))
+ASSUME CASE Mode = "hist" -> \A i \in 1..Len(Hists) : PrintT(ToJson(HistScenario(Hists[i])))
+         [] Mode = "nl" -> \A k \in From..To : IF NLKeep(k) THEN PrintT(ToJson(NLScenario(k))) ELSE TRUE
+         [] OTHER -> \A k \in From..To : PrintT(ToJson(RandScenario(k)))
 
 VARIABLE x
 GenInit == x = 0
